@@ -134,7 +134,7 @@ def execute(sc, ctx):
             o["_log"] = log
             mark = log.mark()
             t_before = antenna.t_start
-            stem = ctx.seams.path("r%d_%d" % (j, a_i))
+            stem = ctx.seams.path("r%d_%d" % (j, a_i if j % 2 else 0))       # every other retry re-uses the stem
             status, exc = W.do_record(ctx, backend, stem, o, header={})
             if status == "fault":
                 ctx.event("aborted")
